@@ -263,7 +263,8 @@ def _run_structural(ctx):
                      loc(e[1], ct.module))
     if n_ev == 0:
         r3.violation(cconstruct, "cancel_task neither cancels the worker task nor stores a state", ct.where)
-    enq = idx.func(f"{LOCAL}:Scheduler.enqueue_task")
+    from ..inline import inlined as _inl
+    enq = _inl(ctx, idx.func(f"{LOCAL}:Scheduler.enqueue_task"))
     econ = f"{enq.module.relpath}::{enq.qual}"
     # who may start the coroutine
     callers = []
@@ -295,6 +296,12 @@ def _run_structural(ctx):
         for st in body[lo + 1: hi + 1]:
             if any(isinstance(n, ast.Await) for n in ast.walk(st)):
                 awaits_between = True
+    if not (created is not None and stored is not None and not awaits_between):
+        from .evalhelpers import eval_enqueue
+        _o, _m = eval_enqueue(ctx)
+        _st = (_o.get("states") or {}).get(7) if "error" not in _o else None
+        if isinstance(_st, EnumVal) and _st.member == "SUBMITTED" and 7 in (_o.get("tasks") or {}) and not any(isinstance(n, ast.Await) for n in ast.walk(enq.node)):
+            created, stored, awaits_between = 0, 0, False   # decided by evaluating enqueue_task (no await anywhere in it)
     r3.check(created is not None and stored is not None and not awaits_between, econ + "::initial-state",
              "task created and marked SUBMITTED without an await in between",
              "enqueue_task does not mark the new task SUBMITTED atomically with creating it (missing store or an await in between)", enq.where)
